@@ -1533,21 +1533,27 @@ Qed.
 (** submission: a job started in the workspace whose output files are plain
     names (no '/', not "", ".", "..") keeps them in the workspace -- for every
     workspace string *)
-Lemma submit_model_ok (ws : str) (names : list str) :
+Lemma submit_model_ok (ws : str) (names : list str) (script : str) :
   Forall (fun n => ~ In SLASH n /\ n <> [] /\ n <> dot /\ n <> dotdot) names ->
-  submit_ok (model_sobs ws names) = true.
+  submit_ok (model_sobs ws names script) = true.
 Proof.
-  intro H. unfold submit_ok, model_sobs. simpl. apply andb_true_iff. split.
+  intro H. unfold submit_ok, model_sobs. simpl.
+  rewrite !andb_true_iff. repeat split.
   - apply npath_eqb_iff. reflexivity.
   - apply forallb_forall. intros n Hn. rewrite Forall_forall in H.
-    destruct (H n Hn) as [K1 K2]. unfold inside. rewrite npath_join2 by assumption.
-    apply (np_inside_ext (npath ws) [n]). discriminate.
+    destruct (H n Hn) as [K1 K2]. unfold child. rewrite npath_join2 by assumption.
+    apply (np_child_ext (npath ws) n).
+  - apply npath_eqb_iff. reflexivity.
 Qed.
 
-(** and a job whose working directory nothing fixes is refuted by the monitor *)
-Lemma submit_nocwd_refuted (ws : str) (names : list str) :
-  submit_ok (mksobs ws None names) = false.
-Proof. reflexivity. Qed.
+(** a submit that raises, a job whose working directory nothing fixes, and an
+    output target in a sub-path of the workspace are refuted by the monitor *)
+Lemma submit_refuted_examples (ws : str) (names : list str) (script : str) :
+  submit_ok (mksobs ws true (Some ws) names (Some script) (join2 ws script)) = false /\
+  submit_ok (mksobs ws false None names (Some script) (join2 ws script)) = false /\
+  submit_ok (mksobs (s "/R/w") false (Some (s "/R/w")) [s "run_train/a.out"] (Some (s "x.sh"))
+                    (s "/R/w/x.sh")) = false.
+Proof. repeat split; reflexivity. Qed.
 
 (* ------------------------------------------------------------------------ *)
 (** * Part F -- boolean hygiene; refutations outside it *)
